@@ -319,6 +319,8 @@ def verify_unit(unit, gen_text, timeout=1500):
         res["status"] = "tool_error"
         res["detail"] = "%s: %s" % (type(e).__name__, e)
         return res
+    # mechanical scan: `assume(..)` / `admit()` statements in the text handed to the verifier
+    res["assume_statements"] = sum(len(re.findall(r"\b(?:assume|admit)\s*\(", t)) for t, _ in texts[:1])
     rep0 = texts[0][1]
     res["report"] = {"extraction": rep0.get("extraction"), "annotator": rep0.get("annotator"),
                      "static_skip": rep0.get("static_skip"), "eoi": rep0.get("eoi"),
